@@ -2496,6 +2496,11 @@ func (interp *Interpreter) cfg(root *node, sc *scope, importPath, pkgName string
 					n.typ = c1.typ
 				}
 				n.findex = sc.add(n.typ)
+			} else if len(n.anc.child) == 3 && isMapEntry(n.anc.child[0]) {
+				// The result is set in a map entry, which is not addressable: it is
+				// first computed in a frame entry of the assertion.
+				n.typ = c1.typ
+				n.findex = sc.add(n.typ)
 			}
 
 		case sliceExpr:
